@@ -247,7 +247,9 @@ std::pair<LookaheadSMTSolver::laresult, Lit> LookaheadSMTSolver::lookaheadLoop()
     if (config.sat_picky()) {
         int k = 0, j = 0;
         while (k < order_heap.size() && j < pickyWidth) {
-            if (value(order_heap[k]) == l_Undef) {
+            // only unassigned decision variables are candidates: a variable that lost its clauses stays in the heap
+            // and would otherwise fill the window for ever
+            if (value(order_heap[k]) == l_Undef and decision[order_heap[k]]) {
                 j++;
                 k++;
             } else {
